@@ -65,6 +65,18 @@ claim("C06", "exploration",
       "Trusted: tick points cover the value-driven loops found by reading (others are seen only by the 120 s watchdog, reported as inconclusive); allocation is measured per thread; libFuzzer target (fuzz/) adds coverage-guided raw bytes in the thorough tier.",
       "DESIGN.md section 2, C06")
 
+claim("C04", "exploration",
+      "stateful property-based testing: generated histories of write / crafted ACKNACK / match / loss / heartbeat tick / timers / cache cleaning against one real Writer with scripted remote readers; every emitted datagram decoded independently per destination; model of written samples, acknowledgments and requests",
+      "Generated operation histories drive a real reliable Writer (all History / Durability settings, small fragment sizes) through its production entry points (WriterCommand channel, MessageReceiver -> acknack channel -> handle_ack_nack, handle_heartbeat_tick, the real timer dispatcher, cache cleaning). "
+      "After every step all emitted datagrams are decoded per destination locator and checked: DATA/DATAFRAG bytes equal what was written, no single-reader sample reaches another reader, HEARTBEAT (first,last) = (lowest retrievable, highest written); after every cleaning the retention lower and upper bounds; at the end every outstanding request was answered by the bytes or a covering GAP and readers that spoke after a single-reader sample got a GAP.",
+      "Trusted: the model in incrate/wscript.rs; scripted readers never lower their ACKNACK base; timer steps wait 3 ms of real time per step (verdict independent of the duration).",
+      "DESIGN.md section 2, C04")
+claim("C20", "exploration",
+      "stateful property-based testing: the writer script with WaitForAcknowledgments commands at any point; the completion channel is compared with a model after every step",
+      "Writer level (deterministic): generated histories of writes, ACKNACKs with bases around last / last+1 / last+2, reader match and loss, and WaitForAcknowledgments commands (also repeated) against the real Writer; after every step the completion channel must hold a token exactly when the model says that every reliable reader matched at the call has acknowledged everything written before the call or was lost - never earlier, and in the same step when already true at the call.",
+      "Trusted: the model in incrate/wscript.rs. The public DataWriter::wait_for_acknowledgments / async_wait_for_acknowledgments wrappers are exercised in a separate scenario once the DataWriter front-end exists (see DESIGN.md).",
+      "DESIGN.md section 2, C20")
+
 NOT_YET = {
 }
 
